@@ -501,6 +501,19 @@ fn c19_batches(out_single: &[SpanRecord]) -> Vec<Vec<SpanRecord>> {
     }
     let large: Vec<SpanRecord> = (0..1000u64).map(|i| rec(0xABCD, i + 1, i, NOW + i, i * 1_000, &format!("span{i}"), &[("i", &i.to_string())], &[])).collect();
     v.push(large);
+    // records with many properties and many events (40 each, the 33rd key repeated), alone and
+    // between ordinary records
+    {
+        let keys: Vec<String> = (0..40).map(|i| if i == 33 { "k7".to_string() } else { format!("k{i}") }).collect();
+        let vals: Vec<String> = (0..40).map(|i| format!("value-{i}")).collect();
+        let props: Vec<(&str, &str)> = keys.iter().zip(vals.iter()).map(|(k, v)| (k.as_str(), v.as_str())).collect();
+        let enames: Vec<String> = (0..40).map(|i| format!("event-{i}")).collect();
+        let eprops: Vec<(&str, &str)> = props[..17].to_vec();
+        let events: Vec<(&str, u64, &[(&str, &str)])> = enames.iter().enumerate().map(|(i, n)| (n.as_str(), NOW + 10 * i as u64, if i % 5 == 0 { &eprops[..] } else { &eprops[..1] })).collect();
+        let fat = rec(0xFA7, 77, 76, NOW, 50_000, "fat", &props, &events);
+        v.push(vec![fat.clone()]);
+        v.push(vec![rec(0xFA7, 76, 0, NOW, 60_000, "before", &[("k", "v")], &[]), fat, rec(0xFA7, 78, 76, NOW + 1, 1_000, "after", &[], &[("e", NOW + 2, &[])])]);
+    }
     // batch sizes around round numbers and powers of two (a reporter that cuts a batch into
     // requests / packets must not lose the remainder)
     for n in [255u64, 256, 257, 999, 1001, 1023, 1024, 1025, 2047, 2049, 2501, 4097, 10_001] {
@@ -929,7 +942,7 @@ fn main() {
     let (rule, assumptions): (&str, Vec<&str>) = if prop == "C19" {
         run_c19(tier == "thorough", &mut out);
         (
-            "every single-record batch over the product of field alphabets (6 trace ids incl. top bits, 5 span/parent id pairs incl. top bits, 5 names incl. empty/2-byte/4-byte/300 B, 5 property lists incl. duplicate and empty keys, 4 event lists, 7 begin times, 5 durations) through the Jaeger and OpenTelemetry reporters, through the Datadog reporter (about a CPU-second per report) the full product of a reduced alphabet in the thorough tier and, in the quick tier, trace ids x id pairs in full plus every other field varied one at a time; all batches of <= 3 records over 6 shapes, the empty batch, a 1000-record batch, batches of 255..10001 records (13 sizes around round numbers and powers of two) and two batches with one record per (key, value) over 53 keys that mean something to a backend (span.kind, error, otel.status_code, service.name, resource.name, sampling.priority, field names of the wire formats, ...) x 9 values, as span properties and as event properties, through all three; distinct_nontrivial counts distinct (reporter, batch size, datagram count) classes",
+            "every single-record batch over the product of field alphabets (6 trace ids incl. top bits, 5 span/parent id pairs incl. top bits, 5 names incl. empty/2-byte/4-byte/300 B, 5 property lists incl. duplicate and empty keys, 4 event lists, 7 begin times, 5 durations) through the Jaeger and OpenTelemetry reporters, through the Datadog reporter (about a CPU-second per report) the full product of a reduced alphabet in the thorough tier and, in the quick tier, trace ids x id pairs in full plus every other field varied one at a time; all batches of <= 3 records over 6 shapes, the empty batch, a 1000-record batch, records with 40 properties and 40 events, batches of 255..10001 records (13 sizes around round numbers and powers of two) and two batches with one record per (key, value) over 53 keys that mean something to a backend (span.kind, error, otel.status_code, service.name, resource.name, sampling.priority, field names of the wire formats, ...) x 9 values, as span properties and as event properties, through all three; distinct_nontrivial counts distinct (reporter, batch size, datagram count) classes",
             vec!["target-format images follow the statement: microseconds in Jaeger, low 64 bits of the trace id + last value per key + no events in Datadog", "loopback UDP loss is ruled out by the socket's drop counter in /proc/net/udp (a drop is a machinery failure, exit 2)", "environment failures (socket errors, HTTP failures) are not in the alphabet"],
         )
     } else {
